@@ -66,6 +66,14 @@ structure Sock where
   hs : List Handle
 deriving DecidableEq, Repr
 
+/-- an abstract unix socket (`unix/@name`, Linux): a name in the kernel's namespace instead of a file.
+    It follows the same bookkeeping — `unixSockets` entry, shared counter, the descriptor caddy keeps,
+    closed and forgotten by the last close — minus the file: for such an address `Sock.file` stands for
+    "the name is bound" (it appears with the bind and goes when the last descriptor is closed; nothing is
+    unlinked, `unlinkUnixSocket` skips the unlink for names starting with '@'), and a connect to an
+    unbound name is refused rather than ENOENT. (Harness convention: ids from 30.) -/
+def Addr.abstract (a : Addr) : Bool := a.unix && decide (30 ≤ a.id)
+
 def Sock.empty : Sock := ⟨0, 0, none, false, 0, []⟩
 
 def Sock.holds (k : Sock) (g : Gen) : Bool := k.hs.any (fun h => h.gen == g)
@@ -299,7 +307,7 @@ deriving DecidableEq, Repr
 def connect (s : State) (a : Addr) : List Conn :=
   if (s.socks a).hs ≠ [] then (s.socks a).gens.map Conn.answered
   else if !a.unix then [.refused]
-  else if !(s.socks a).file then [.noent]
+  else if !(s.socks a).file then (if a.abstract then [.refused] else [.noent])
   else if (s.socks a).leaks > 0 then [.hangs]
   else [.refused]
 
